@@ -711,17 +711,38 @@ func posOf(c *core.Ctx, s *ir.Step) token.Pos { return s.Pos() }
 // make channels (the stage constructors), sorted by position.
 func stageFuncs(c *core.Ctx, pkg string) []*ssa.Function {
 	var out []*ssa.Function
-	for _, f := range exportedFuncs(c, pkg) {
-		has := false
+	// a stage constructor spawns a goroutine or makes a channel - itself, or in an unexported function of the
+	// package it delegates to (an exported wrapper over an internal `...With(cfg)` constructor)
+	var spawns func(f *ssa.Function, depth int, seen map[*ssa.Function]bool) bool
+	spawns = func(f *ssa.Function, depth int, seen map[*ssa.Function]bool) bool {
+		if f == nil || seen[f] || depth > 4 {
+			return false
+		}
+		seen[f] = true
 		for _, b := range f.Blocks {
 			for _, in := range b.Instrs {
-				switch in.(type) {
+				switch in := in.(type) {
 				case *ssa.Go, *ssa.MakeChan:
-					has = true
+					return true
+				case *ssa.Call:
+					callee := in.Call.StaticCallee()
+					if callee != nil && callee.Origin() != nil {
+						callee = callee.Origin() // the generic function an instance was made of
+					}
+					if callee != nil && callee.Pkg != nil && callee.Pkg == f.Pkg && callee.Parent() == nil {
+						if o := callee.Object(); o == nil || !o.Exported() {
+							if spawns(callee, depth+1, seen) {
+								return true
+							}
+						}
+					}
 				}
 			}
 		}
-		if has {
+		return false
+	}
+	for _, f := range exportedFuncs(c, pkg) {
+		if spawns(f, 0, map[*ssa.Function]bool{}) {
 			out = append(out, f)
 		}
 	}
@@ -743,10 +764,18 @@ func sortedKeys[V any](m map[string]V) []string {
 // loops. Cycles with calls are not judged (the callee may be what makes progress).
 func loopsProgress(c *core.Ctx, rule string, pkgs ...string) {
 	for _, pkg := range pkgs {
+		nLoops, nFuncs := 0, 0
+		defer func(pkg string) {
+			// how many functions carry loops changes with every refactoring (a loop moved into an iterator of the
+			// standard library leaves none behind): the package is always reported, with what was examined
+			c.Ok(rule, pkgShort(pkg)+"#package", 0, fmt.Sprintf("%d functions, %d with loops", nFuncs, nLoops))
+		}(pkg)
 		for _, fn := range c.W.SourceFuncs(pkg) {
+			nFuncs++
 			if !ir.HasLoop(fn) {
 				continue
 			}
+			nLoops++
 			name := pkgShort(pkg) + "." + fnLabel(fn)
 			an := c.Analyze(fn)
 			if len(an.Problems) > 0 {
